@@ -28,11 +28,30 @@ def traced_solve(device, options, A=0.0, currents=None, eps=1.0, seed_solution=N
     solver = TDGLSolver(device=device, options=options, applied_vector_potential=A,
                         terminal_currents=currents, disorder_epsilon=eps, seed_solution=seed_solution)
     orig = solver.update
+    # run-level correspondence (Model.Step.run_steps / Model.Runner.traj): the state handed to update k+1 is the result of
+    # update k (psi, mu bit for bit), its time is the previous time plus the dt that update returned
+    thread = {"pairs": 0, "breaks": [], "prev": None}
+    solver._verif_threading = thread
 
     def wrapped(state, running_state, dt, **kwargs):
+        import numpy as np
+        pv = thread["prev"]
+        if pv is not None and state["step"] == pv["step"] + 1:
+            thread["pairs"] += 1
+            what = []
+            if not np.array_equal(np.asarray(kwargs["psi"]), pv["psi"]):
+                what.append("psi")
+            if not np.array_equal(np.asarray(kwargs["mu"]), pv["mu"]):
+                what.append("mu")
+            if state["time"] != pv["time"] + pv["dt"]:
+                what.append("time")
+            if what and len(thread["breaks"]) < 5:
+                thread["breaks"].append({"step": int(state["step"]), "differs": what})
         if before_step is not None:
             before_step(solver, dict(state), kwargs)
         res = orig(state, running_state, dt, **kwargs)
+        thread["prev"] = {"step": int(state["step"]), "time": state["time"], "dt": res.dt,
+                          "psi": np.array(res.psi, copy=True), "mu": np.array(res.mu, copy=True)}
         if on_step is not None:
             on_step(solver, dict(state), kwargs, res)
         return res
@@ -40,6 +59,18 @@ def traced_solve(device, options, A=0.0, currents=None, eps=1.0, seed_solution=N
     solver.update = wrapped
     sol = solver.solve()
     return sol, solver
+
+
+def report_threading(rep, solver, case):
+    """not_shown when the real loop does not thread psi / mu / time the way Model.Step.run_steps and Model.Runner do."""
+    th = getattr(solver, "_verif_threading", None)
+    if th is None:
+        return
+    rep.coverage["threaded_update_pairs"] = rep.coverage.get("threaded_update_pairs", 0) + th["pairs"]
+    if th["breaks"]:
+        rep.not_shown("correspondence(run): the state handed to an update is not the result of the previous update "
+                      "(Model.Step.run_steps threads psi and mu; Model.Runner adds the returned dt to the time)",
+                      {**case, "breaks": th["breaks"]})
 
 
 def _ramp_field(x, y, z, *, t, b0, b1, tau, field_units="mT", length_units="um"):
